@@ -75,6 +75,9 @@ def make_config(fd, rng, tier, model=None, grid_kind=None, solvable=False, n_ext
             vals = rng.uniform(max(lo, 0.5 if solvable else 0.2), max(0.8 * span, lo + 1.0), size=pshape)
             if solvable:
                 vals = np.maximum(vals, 1.5 * float(dtv.max()))
+            if model == "FixedLifetime" and rng.random() < 0.5:
+                # exact ties between an age and the lifetime (integer / half-integer lifetimes): S(L) = 0 must hold exactly
+                vals = np.maximum(np.round(vals * 2) / 2, 0.5)
         elif pn == "std":
             vals = rng.uniform(0.1, 0.8, size=pshape) if (solvable or rng.random() < 0.6) else rng.uniform(0.8, 1.6, size=pshape)  # relative, scaled below
         else:  # weibull_shape
@@ -242,6 +245,9 @@ def c10_case(rec, hub, rng, tier):
             sd = make_stock(fd, cfg, "StockDrivenDSM", solver=solver, lm=build_lm(fd, cfg), stock=pres)
             sd.compute()
             res[solver] = S.results_of(sd)
+            rec.event(M10, sig=f"driver-kept|{solver}|{base}", cls=f"prescribed-stock-kept|{solver}")
+            if not np.array_equal(sd.stock.values, pres):
+                rec.violation(M10, f"stock-driven-compute-overwrote-the-prescribed-stock:{solver}", dict(model=cfg["model"], time_items=cfg["items"][:12], solver=solver, extra_dims=list(cfg["extra"])))
             idm2 = make_stock(fd, cfg, "InflowDrivenDSM", lm=build_lm(fd, cfg), inflow=res[solver]["inflow"])
             idm2.compute()
             xs = max(float(np.max(np.abs(res[solver]["inflow"]))) * float(np.max(S.dt_of(cfg["items"]))), float(np.max(np.abs(pres))))
@@ -356,6 +362,24 @@ def c16_case(rec, hub, rng, tier, which):
             for k, v in Rx.items():
                 sl[k] = v[(slice(None), slice(None)) + idx] if k.endswith("by_cohort") else v[(slice(None),) + idx]
             cmp("labels", sl, R1, "label-combination-evolves-differently-when-computed-alone", sc=sc, label_index=list(idx))
+    # superposition from a basis: responses to ALL unit impulses of the time axis (one label column at a time) predict f(x)
+    if nt <= 12:
+        rest_shape = cfg["shape"][1:]
+        basis = {}
+        for c in range(nt):
+            imp = np.zeros(cfg["shape"])
+            imp[c] = 1.0
+            basis[c], _ = run(imp)
+        # f(x) for a driver with the same time profile in every label column = sum_c x[c] * f(e_c)
+        prof = driver_values(rng, (nt,), kind)
+        prof[int(rng.integers(0, nt))] = 0.0
+        if nt > 3:
+            prof[-1] = 0.0 if rng.random() < 0.5 else prof[-1]
+        xx = np.zeros(cfg["shape"]) + prof.reshape((nt,) + (1,) * len(rest_shape))
+        Rb, _ = run(xx)
+        pred = {k: sum(prof[c] * basis[c][k] for c in range(nt)) for k in Rb}
+        bsc = {k: max(float(np.max(np.abs(v))), float(np.max(np.abs(pred[k]))), 1e-300) for k, v in Rb.items()}
+        cmp("impulse-basis", pred, Rb, "response-differs-from-the-superposition-of-unit-impulse-responses", sc=bsc)
     # unit impulses (inflow-driven): stock = sf[:, c] * dt[c]
     if cls_name == "InflowDrivenDSM":
         lm = build_lm(fd, cfg)
@@ -417,7 +441,7 @@ def c17_case(rec, hub, rng, tier, which):
         hist.append(op)
         with quiet():
             if op == "driver":
-                getattr(live, drive_attr).values[...] = driver_values(rng, cfg["shape"], kind)
+                getattr(live, drive_attr).values[...] = driver_values(rng, cfg["shape"], kind) if rng.random() < 0.8 else 0.0
                 if cls_name == "SimpleFlowDrivenStock":
                     live.outflow.values[...] = driver_values(rng, cfg["shape"], "positive")
             elif op == "set_prms":
